@@ -610,6 +610,14 @@ func main() {
 		seed := fs.Int64("seed", 1, "")
 		fs.Parse(os.Args[2:])
 		stressMain(*g, *n, *seed)
+	case "watdump":
+		// compiler output of every program, for the WAT tool checks
+		for _, p := range progs {
+			_, wat, _, err := api.BuildFile(api.DefaultConfig(), p.name, p.code)
+			if err == nil {
+				os.WriteFile(os.Args[2]+"/"+p.name+".wat", wat, 0666)
+			}
+		}
 	case "det":
 		fs := flag.NewFlagSet("det", flag.ExitOnError)
 		k := fs.Int("k", 3, "")
